@@ -15,7 +15,7 @@ exec(open(os.path.join(V, "lib", "manifest_table.py")).read())
 ALL = ["C%02d" % i for i in range(1, 21)]
 hooks = subprocess.run(["git", "-C", "/repo", "log", "--format=%h", "--grep=^verif hook"], capture_output=True, text=True).stdout.split()
 m = dict(version=1,
-         setup_cmd="bin/selftest && python3 build/build.py asan w32 msan rel relwrap asanwrap",
+         setup_cmd="bin/selftest && python3 build/build.py asan w32 msan rel relwrap asanwrap tsan && python3 fuzz/build_fuzz.py",
          hooks=dict(guard="BEE2_VERIF", enable="every check builds /repo's working tree itself (build/build.py) with -DBEE2_VERIF in the sanitizer configurations",
                     baseline_off_cmd="bin/baseline", source_commits=hooks, add_only=True),
          engines=[dict(name="b2x+hypothesis", path="x/b2x.c lib/x.py lib/harness.py", serves_properties=sorted(CHECKS),
